@@ -169,7 +169,8 @@ Proof.
     { assert (H : In c (filter (fun k => str_eqb (name s k) nm) (kids s p))) by (rewrite F; left; reflexivity).
       apply filter_In in H. tauto. }
     apply (wf_link s W) in Hc. apply set_parent_WF; [exact W|apply (wf_bound s W c p Hc)|intros q [=]].
-  - cbn [fst]. apply set_kids_perm_WF; [exact W|apply py_sort_perm].
+  - destruct (sort_raises keys (kids s p)); cbn [fst]; [exact W|].
+    apply set_kids_perm_WF; [exact W|apply py_sort_perm].
   - destruct (is_node cfg); cbn [negb fst]; [|exact W].
     destruct W as [Hl Hn Hb Ha]. constructor; assumption.
 Qed.
@@ -198,7 +199,7 @@ Proof.
   - destruct (is_node cfg); cbn [negb] in *; [|apply same_refl].
     destruct (filter (fun k => str_eqb (name s k) nm) (kids s p)) as [|c [|c' l]]; [apply same_refl| |apply same_refl].
     apply set_parent_atomic; assumption.
-  - cbn [snd] in H. contradiction.
+  - destruct (sort_raises keys (kids s p)); cbn [fst snd] in *; [apply same_refl|contradiction].
   - destruct (is_node cfg); cbn [negb snd] in *; [contradiction|apply same_refl].
 Qed.
 
@@ -266,12 +267,27 @@ Proof.
 Qed.
 
 Theorem sort_effect s p keys rv :
-  let s' := set_kids s p (py_sort (fun x => nth x keys 0) rv (kids s p)) in
+  let s' := set_kids s p (py_sort (key_of keys) rv (kids s p)) in
   Permutation (kids s' p) (kids s p)
   /\ (forall q, q <> p -> kids s' q = kids s q) /\ (forall x, par s' x = par s x).
 Proof.
   cbn [kids par set_kids]. split; [rewrite upd_same; apply py_sort_perm|].
   split; [intros q Hq; apply upd_other; exact Hq|reflexivity].
+Qed.
+
+(* the whole sort operation: a comparison that raises leaves everything as it was (BaseNode.sort sorts a copy) *)
+Theorem sort_step_effect cfg s p keys rv : in_range s p = true ->
+  let r := step cfg s (Sort p keys rv) in
+  (sort_raises keys (kids s p) = true -> r = (s, Err TypeError))
+  /\ (sort_raises keys (kids s p) = false ->
+      snd r = Ok /\ kids (fst r) p = py_sort (key_of keys) rv (kids s p)
+      /\ Permutation (kids (fst r) p) (kids s p)
+      /\ (forall q, q <> p -> kids (fst r) q = kids s q) /\ (forall x, par (fst r) x = par s x)).
+Proof.
+  intros R r. unfold r, step. cbn [op_in_range]. rewrite R. cbn [negb].
+  split; intros E; rewrite E; [reflexivity|]. cbn [fst snd].
+  split; [reflexivity|]. split; [cbn [kids set_kids]; apply upd_same|].
+  apply (sort_effect s p keys rv).
 Qed.
 
 (* The checks are pure guards, stated the other way round: wherever the run with the checks OFF does
